@@ -86,7 +86,7 @@ type Handle = Box<dyn Droppable>;
 // ---------------------------------------------------------------------------------------
 // programs / actions
 
-pub const SHAPES: [&str; 18] = [
+pub const SHAPES: [&str; 19] = [
     "chain",
     "diamond",
     "bind_fresh",
@@ -105,6 +105,7 @@ pub const SHAPES: [&str; 18] = [
     "shared_var",
     "inner_invalidated",
     "inner_pending_invalidation",
+    "shared_fanout",
 ];
 
 #[derive(Clone, Copy, Debug, PartialEq, Eq)]
@@ -169,6 +170,9 @@ struct Shared {
     next: i32,
     late_counters: Vec<(String, Ctr)>,
     late_weaks: Vec<(String, Box<dyn Fn() -> usize>)>,
+    /// shape `shared_fanout`: writes the shared variable before every stabilise (argument = the new value), so that
+    /// the shared remaining graph is judged on fresh values after every drop order
+    poke: Option<Box<dyn Fn(i32)>>,
 }
 
 impl Cx {
@@ -792,6 +796,7 @@ fn build_shape(shape: &str, cx: &mut Cx, st: &IncrState) -> bool {
                 next: if dirty { 107 } else { 101 },
                 late_counters: vec![("values".into(), late_values), ("closure:remaining-map".into(), late_closure)],
                 late_weaks: vec![("v".into(), Box::new(move || wv.strong_count())), ("remaining-map".into(), Box::new(move || wrm.strong_count()))],
+                poke: None,
             });
             cx.extra("o1.clone", o1.clone());
             cx.extra("v.clone", v.clone());
@@ -799,6 +804,58 @@ fn build_shape(shape: &str, cx: &mut Cx, st: &IncrState) -> bool {
             cx.handle("v", v);
             cx.handle("m1", m1);
             cx.handle("o1", o1);
+        }
+        // One variable with three dependants linked at the same time: two of the shape (oldest), then the remaining
+        // graph's map (youngest). The shape's observers are dropped in every order while the harness keeps writing the
+        // variable (through a handle of its own) before every stabilise: the remaining dependant must keep following
+        // (added after seed C12-c: removal from the middle of a node's dependant list).
+        "shared_fanout" => {
+            let late_values: Ctr = Rc::new(Cell::new(0));
+            let v = st.var(Tk::new(1, &late_values));
+            let (t1, t2) = (cx.tok("f1"), cx.tok("f2"));
+            let m1 = v.map(move |x| {
+                let _ = &t1;
+                x.with(x.v + 1)
+            });
+            let m2 = v.map(move |x| {
+                let _ = &t2;
+                x.with(x.v + 2)
+            });
+            let o1 = m1.observe();
+            let o2 = m2.observe();
+            let late_closure: Ctr = Rc::new(Cell::new(0));
+            let tr = Token::new(&late_closure);
+            let rm = v.map(move |x| {
+                let _ = &tr;
+                x.v + 100
+            });
+            let ro = rm.observe();
+            cx.weak("m1", &m1);
+            cx.weak("m2", &m2);
+            let wv = v.watch().weak();
+            let wrm = rm.weak();
+            // the three dependants are linked, in creation order, by this stabilise (all variants)
+            cx.forced_stabilise = true;
+            st.stabilise();
+            let dirty = cx.settle(st);
+            if dirty {
+                v.set(Tk::new(7, &late_values));
+            }
+            let (pv, pc) = (v.clone(), late_values.clone());
+            cx.shared = Some(Shared {
+                o: ro,
+                keep: vec![Box::new(rm)],
+                now: Some(101),
+                next: if dirty { 107 } else { 101 },
+                late_counters: vec![("values".into(), late_values), ("closure:remaining-map".into(), late_closure)],
+                late_weaks: vec![("v".into(), Box::new(move || wv.strong_count())), ("remaining-map".into(), Box::new(move || wrm.strong_count()))],
+                poke: Some(Box::new(move |x| pv.set(Tk::new(x, &pc)))),
+            });
+            cx.extra("m1", m1);
+            cx.extra("m2", m2);
+            cx.handle("o1", o1);
+            cx.handle("o2", o2);
+            cx.handle("v", v);
         }
         // self-test of the oracles (family `c12/selftest`): the harness itself leaks a strong
         // reference to a node, as an engine that forgot to release it would
@@ -940,14 +997,15 @@ impl DropsWorld {
         }
         // now release the remaining graph too: then nothing at all may be left
         let rem = self.rem.take();
-        let (sh_o, sh_keep, late_counters, late_weaks) = match self.shared.take() {
-            Some(sh) => (Some(sh.o), sh.keep, sh.late_counters, sh.late_weaks),
-            None => (None, vec![], vec![], vec![]),
+        let (sh_o, sh_keep, sh_poke, late_counters, late_weaks) = match self.shared.take() {
+            Some(sh) => (Some(sh.o), sh.keep, sh.poke, sh.late_counters, sh.late_weaks),
+            None => (None, vec![], None, vec![], vec![]),
         };
         if let Err(p) = catch(move || {
             drop(rem);
             drop(sh_o);
             drop(sh_keep);
+            drop(sh_poke);
         }) {
             return self.panic_violation("drop-remaining-graph", &p, vs);
         }
@@ -1090,6 +1148,15 @@ impl World for DropsWorld {
                 let n = self.rem_n;
                 let rv = self.rem.as_ref().unwrap().v.clone();
                 let ctr = self.rem_values.clone();
+                if let Some(sh) = self.shared.as_mut() {
+                    if let Some(poke) = sh.poke.as_ref() {
+                        if let Err(p) = catch(|| poke(10 * n)) {
+                            self.panic_violation("write-shared-var", &p, &mut vs);
+                            return vs;
+                        }
+                        sh.next = 10 * n + 100;
+                    }
+                }
                 let res = catch(move || {
                     rv.set(Tk::new(100 + n, &ctr));
                     drop(rv);
